@@ -247,9 +247,11 @@ def partitions(ck, an):
     tests = []
     for r in raises_in(fa):
         sg = fa.syntactic_guards(r)
-        if len(sg) == 1 and sg[0][0] == "rel" and lat_p in sg[0][2] and "_min_timesteps_diff" in sg[0][2]:
+        iff_ = next((p for p in parents(r) if isinstance(p, ast.If)), None)
+        gap_ = specv(fa, f"self._min_timesteps_diff() - {lat_p}", fa.node_of(iff_.test).id) if iff_ is not None else None
+        if len(sg) == 1 and sg[0][0] == "rel" and gap_ is not None and sg[0][4] in (gap_, -gap_):
             a = sg[0]
-            ok = a[1] == "<=" and poly_mentions(a[4], lat_p, sign=-1) and poly_mentions(a[4], "_min_timesteps_diff", sign=+1)
+            ok = a[1] == "<=" and a[4] == gap_
             ck.check(ok, "CMP", "S6.latency-below-min-gap", subj, fa.loc(r), "latency >= minimum timestep gap raises", f"latency bound test is {cmp_key(a)}", construct=stmt_text(next(p for p in parents(r) if isinstance(p, ast.If))))
             tests.append(next(p for p in parents(r) if isinstance(p, ast.If)).test)
     if not tests:
@@ -382,13 +384,13 @@ def nxt(ck, an):
     fa = an.fa("Transmitter._next")
     subj = fa.f.short
     # step pointer
-    incs = [s for s in all_stmts(fa) if isinstance(s, ast.AugAssign) and ast.unparse(s.target) == "self._step_nr"]
+    incs, other_w = attr_increments(fa, "_step_nr", 1)
     pc = fa.cfg.path_count(lambda n: sum(1 for s in incs if fa.node_of(s).id == n.id), ends=[fa.cfg.exit.id])
     lo, hi = pc.get(fa.cfg.exit.id, (0, 0))
-    ck.check((lo, hi) == (1, 1) and all(isinstance(s.op, ast.Add) and const_value(s.value) == 1 for s in incs), "PATHCOUNT", "S2.step-pointer-advances-once", subj, fa.f.loc,
+    ck.check((lo, hi) == (1, 1) and not other_w, "PATHCOUNT", "S2.step-pointer-advances-once", subj, fa.f.loc,
              "the step pointer advances by exactly 1 per batch", f"_step_nr advances {lo}..{hi} times per call", construct="self._step_nr += 1")
     cur = [s for s in assigns_to_attr(fa, "_current_time")]
-    ok = len(cur) == 1 and isinstance(cur[0], ast.Assign) and ast.unparse(cur[0].value) == "self._steps[self._step_nr]"
+    ok = len(cur) == 1 and isinstance(cur[0], ast.Assign) and fa.sym.canon(cur[0].value) == "self._steps[self._step_nr]"
     ck.check(ok, "ARGFLOW", "S2.current-time-is-step", subj, fa.f.loc, "_current_time = _steps[_step_nr]", f"_current_time = {[ast.unparse(s.value) for s in cur if isinstance(s, ast.Assign)]}", construct="self._current_time = self._steps[self._step_nr]")
     if cur and incs:
         ord_before(ck, fa, "S2.read-before-advance", cur, incs, "reading the current step", "advancing the pointer")
@@ -413,6 +415,13 @@ def nxt(ck, an):
         ck.fail("GUARD", "S9.history-on-first-step-only", subj, fa.f.loc, "no history branch in _next", construct="if self._step_nr == 1 and not self._markov_reset")
         return
     n, c, atoms = hist_if
+    hist_pol = True           # which arm of the `if` replays history: an inverted test (`if not (...): regular else: history`) is the same branch
+    if c[0] == "or":
+        from sa.dataflow import cmp_negate
+        c = cmp_negate(c)
+        atoms = cmp_atoms(c)
+        hist_pol = False
+    hist_block = n.body if hist_pol else n.orelse
     first = any(a[0] == "rel" and a[1] == "==" and a[4] in (Poly.atom("self._step_nr") - Poly.const(1), Poly.const(1) - Poly.atom("self._step_nr")) for a in atoms)
     nomk = any(a[0] == "truthy" and a[1] == "self._markov_reset" and a[2] is False for a in atoms)
     ck.check(c[0] == "and" and len(atoms) == 2 and first and nomk, "GUARD", "S9.history-on-first-step-only", subj, fa.loc(n),
@@ -420,28 +429,27 @@ def nxt(ck, an):
     if incs:
         ord_before(ck, fa, "S9.first-step-test-after-advance", incs, [n.test], "the pointer advance", "the first-step test (_step_nr == 1)")
     # origin
-    odefs = [d for d in fa.rd.defs if d.var == "origin" and d.kind == "assign"]
-    good = len(odefs) == 1 and fa.sym.ev(odefs[0].value, odefs[0].node) == spec(fa, "(self._current_time - self._warmup) if self._warmup else datetime.min", odefs[0].node)
-    ck.check(good, "LIN", "S9.warmup-horizon", subj, fa.loc(n), "origin = current time - warm-up horizon, or the beginning of time", f"origin = {[fa.sym.canon(d.value, d.node) for d in odefs]}",
-             construct="origin = (self._current_time - self._warmup) if self._warmup else datetime.min")
+    ORIGIN = "(self._current_time - self._warmup) if self._warmup else datetime.min"      # the warm-up horizon, matched by value id where it bounds the history (below)
     # S7 batch shape
-    fw = Forward(an, fa, assume=lambda s, f: True if s is n else None, call_effects=False).run()
+    fw = Forward(an, fa, assume=lambda s, f: hist_pol if s is n else None, call_effects=False).run()
     hist_rets = [(r, v, st) for r, v, st in fw.returns]
-    fw2 = Forward(an, fa, assume=lambda s, f: False if s is n else None, call_effects=False).run()
+    fw2 = Forward(an, fa, assume=lambda s, f: (not hist_pol) if s is n else None, call_effects=False).run()
     for r, v, st in fw2.returns:
         k = v.key() if v is not None else "?"
         ck.check(k == "(self._partition_latent[self._current_time], self._partition_nonlatent[self._current_time])" or
                  k == "(self._partition_latent[self._steps[self._step_nr]], self._partition_nonlatent[self._steps[self._step_nr]])", "ARGFLOW", "S7.step-batch-is-own-partitions", subj, fa.loc(r),
                  "a regular step hands out (latent[current], nonlatent[current])", f"regular batch is {k[:160]}", construct="return events_latent, events_nonlatent (step)")
+    org = False
     for r, v, st in hist_rets:
-        if not isinstance(r.value, ast.Tuple) or len(r.value.elts) != 2:
+        rv_, rat_ = deref(fa, r.value)
+        if not isinstance(rv_, ast.Tuple) or len(rv_.elts) != 2:
             ck.fail("ARGFLOW", "S7.history-batch-ordered", subj, fa.loc(r), "the history batch is not a (latent, non-latent) pair", construct=stmt_text(r))
             continue
-        fwh = Forward(an, fa, assume=lambda s, f: True if s is n else None, call_effects=False)
+        fwh = Forward(an, fa, assume=lambda s, f: hist_pol if s is n else None, call_effects=False)
         fwh.run()
         fwh.st = st
-        lat_k = fwh.canon(r.value.elts[0])
-        non_k = fwh.canon(r.value.elts[1])
+        lat_k = fwh.canon(rv_.elts[0])
+        non_k = fwh.canon(rv_.elts[1])
         multi_l = "for " in lat_k
         multi_n = "for " in non_k
         if multi_l and multi_n:
@@ -461,7 +469,7 @@ def nxt(ck, an):
                 if "_partition_latent" in l and "_partition_nonlatent" in rr:
                     elt_ok = True
         bounds = org = False
-        for node in ast.walk(n):
+        for node in [x for b_ in hist_block for x in ast.walk(b_)]:
             if isinstance(node, (ast.ListComp, ast.GeneratorExp)):
                 for gen in node.generators:
                     tv = gen.target.id if isinstance(gen.target, ast.Name) else None
@@ -471,7 +479,7 @@ def nxt(ck, an):
                             cc = fa.sym.cmp(cond, fa.cfg.node_of(node).id if fa.cfg.node_of(node) else None)
                         finally:
                             fa.sym.scope.pop()
-                        orig_p = fa.sym.ev(ast.Name(id="origin", ctx=ast.Load()), fa.cfg.node_of(node).id if fa.cfg.node_of(node) else None)
+                        orig_p = specv(fa, ORIGIN, fa.cfg.node_of(node).id if fa.cfg.node_of(node) else None)
                         for a in cmp_atoms(cc):
                             if a[0] == "rel" and a[1] == "<=" and tv and a[4] == Poly.atom(tv) - Poly.atom("self._current_time"):
                                 bounds = True
@@ -483,7 +491,10 @@ def nxt(ck, an):
                  f"history batch shape not recognised as time-ordered: latent={lat_k[:80]}, nonlatent={non_k[:200]}", construct="history branch of _next")
         ck.check(bounds, "CMP", "S9.history-upper-bound", subj, fa.loc(r), "history is bounded above by the current step (t <= current time, inclusive)",
                  f"no `t <= self._current_time` bound on the history: {agg[:200]}", construct="if origin <= t <= self._current_time")
-        ck.check(org, "CMP", "S9.history-lower-bound", subj, fa.loc(r), "history is bounded below by the warm-up origin (origin <= t)", f"no `origin <= t` bound on the history: {agg[:200]}", construct="if origin <= t <= self._current_time")
+        ck.check(org, "CMP", "S9.history-lower-bound", subj, fa.loc(r), "history is bounded below by the warm-up origin: (current time - warm-up horizon, or the beginning of time) <= t",
+                 f"no `origin <= t` bound with origin = {ORIGIN} on the history: {agg[:200]}", construct="if origin <= t <= self._current_time")
+    ck.check(org, "LIN", "S9.warmup-horizon", subj, fa.loc(n), "origin = current time - warm-up horizon, or the beginning of time", "the history's lower bound is not (self._current_time - self._warmup) if self._warmup else datetime.min",
+             construct="origin = (self._current_time - self._warmup) if self._warmup else datetime.min")
     own_callers(ck, an, "S2.next-callers", "Transmitter._next", {"TradingEnv.reset", "TradingEnv._process_nonlatent_events"})
     # _reset rewinds the pointer
     fr = an.fa("Transmitter._reset")
